@@ -40,10 +40,46 @@ theorem C20_no_early_exit (a b : Bytes) :
     (Sha256.digest a).length = 32 ∧ (Sha256.digest b).length = 32 :=
   ⟨rfl, Sha256.digest_length a, Sha256.digest_length b⟩
 
+/-! The work done BEFORE the digests are compared: `digest` runs the compression function a number of
+times that is a function of the content's LENGTH only (padding is `len ‖ 0x80 ‖ zeros ‖ bitlen`), so two
+secrets of one length cost the same number of blocks whatever their bytes (audit item 15). -/
+
+theorem words_length : ∀ (n : Nat) (m : Bytes), m.length ≤ n → (Sha256.words m).length = m.length / 4
+  | 0, m, h => by
+      have : m = [] := List.length_eq_zero_iff.mp (by omega)
+      subst this; simp [Sha256.words]
+  | n+1, m, h => by
+      match m with
+      | [] => simp [Sha256.words]
+      | [_] => simp [Sha256.words]
+      | [_, _] => simp [Sha256.words]
+      | [_, _, _] => simp [Sha256.words]
+      | a :: b :: c :: d :: r =>
+        have ih := words_length n r (by simp at h; omega)
+        simp [Sha256.words, ih]; omega
+
+theorem pad_length (m : Bytes) : (Sha256.pad m).length = (m.length + 72) / 64 * 64 := by
+  simp [Sha256.pad, Sha256.be64]; omega
+
+/-- number of compression-function calls `digest` makes on `m` -/
+def compressions (m : Bytes) : Nat := (Sha256.words (Sha256.pad m)).length / 16
+
+theorem compressions_eq (m : Bytes) : compressions m = (m.length + 72) / 64 := by
+  unfold compressions
+  rw [words_length _ _ (Nat.le_refl _), pad_length]; omega
+
+/-- the SHA-256 work before the comparison depends on the LENGTH of a secret only, never on its bytes -/
+theorem C20_work_length_only (a a' : Bytes) (h : a.length = a'.length) : compressions a = compressions a' := by
+  rw [compressions_eq, compressions_eq, h]
+
+theorem digest_uses_compressions (m : Bytes) :
+    Sha256.digest m = (Sha256.blocks (compressions m) (Sha256.words (Sha256.pad m)) Sha256.init).bytes := rfl
+
 /-! Non-vacuity (kernel-evaluated SHA-256 on small inputs) -/
 example : secEq [0x61] [0x61] = true := C20_refl _
 example : secEq [0x61] [0x62] = false := by decide +kernel
 example : secEq [] [0x00] = false := by decide +kernel
+example : compressions (List.replicate 55 0x61) = 1 ∧ compressions (List.replicate 56 0x62) = 2 := by decide +kernel
 
 end C20
 
@@ -54,3 +90,6 @@ end C20
 #print axioms C20.C20_hash_consistent
 #print axioms C20.C20_content_of_eq_partial
 #print axioms C20.C20_no_early_exit
+#print axioms C20.C20_work_length_only
+#print axioms C20.compressions_eq
+#print axioms C20.digest_uses_compressions
